@@ -828,16 +828,17 @@ impl MachineState {
     }
 
     pub fn read_term_eof_handler(&mut self, mut stream: Stream) -> Result<OnEOF, MachineStub> {
-        if stream.at_end_of_stream() {
-            unify!(self, self.registers[2], atom_as_cell!(atom!("end_of_file")));
-            stream.set_past_end_of_stream(true);
-            return Ok(OnEOF::Return);
-        } else if stream.past_end_of_stream() {
+        if stream.past_end_of_stream() {
             self.eof_action(self.registers[2], stream, atom!("read_term"), 3)?;
 
             if stream.options().eof_action() == EOFAction::Reset && !self.fail {
                 return Ok(OnEOF::Continue);
             }
+        } else {
+            // the parser has met the end of the input. A stream that cannot
+            // tell its position (a pipe, a socket) is at its end all the same.
+            unify!(self, self.registers[2], atom_as_cell!(atom!("end_of_file")));
+            stream.set_past_end_of_stream(true);
         }
 
         Ok(OnEOF::Return)
